@@ -345,15 +345,21 @@ def build(kind, v, wide=False, vpstyle=0):
     if kind == "data2d":
         from basictdf.tdfData2D import Data2D, Data2DFlags
         nc, nf, freq, st, flags, cam_map, rows = v
-        d = Data2D(nc, nf, freq, f32(st)[()], Data2DFlags(flags))
         data = np.empty((nf, nc), dtype=object)
         for i, row in enumerate(rows):
             for j, cell in enumerate(row):
                 if cell is not None:
                     a = f32([c for p in cell for c in p]).reshape(-1, 2)
                     data[i, j] = a.astype("<f8") if wide else a
+        if nc == 0:
+            d = Data2D(nc, nf, freq, f32(st)[()], Data2DFlags(flags))
+        else:
+            # the camera map has no public setter: the only public way to get a block with a map is to decode one.
+            # Header + map + an all-empty count table are produced here with struct; the point data then comes in
+            # through the public `data` setter, so that what `_write` emits is built from OUR arrays.
+            hdr = struct.pack("<iiiII", nc, nf, freq, st, flags) + struct.pack(f"<{nc}H", *cam_map) + b"\x00\x00" * (nc * nf)
+            d = Data2D._build(io.BytesIO(hdr), 2)
         d.data = data
-        d._camMap = np.array(cam_map, dtype="<u2")   # no public setter exists for the camera map
         return d
     if kind == "calib":
         from basictdf.tdfCalibrationData import (BTSCameraData, CalibrationDataBlock, CalibrationDataBlockFormat,
